@@ -1063,7 +1063,7 @@ func runP4(ctx *xplor.Ctx, iv int64, d int) string {
 // ---------------------------------------------------------------- driver
 
 type unit struct {
-	kind       int // 1..4
+	kind       int // 1..5
 	iv         int64
 	a, b, c    int
 	cost       int64
@@ -1091,6 +1091,18 @@ func run(ctx *xplor.Ctx) {
 			if msg := runP4(ctx, r.Iv, r.D); msg != "" {
 				ctx.Violation("", msg, r)
 			}
+		case 5:
+			var r5 p5replay
+			if err := json.Unmarshal(ctx.Replay, &r5); err != nil {
+				panic(err)
+			}
+			var seq []p5list
+			for _, l := range r5.Seq {
+				seq = append(seq, p5list{l})
+			}
+			if msg := p5run(ctx, r5.Iv, 8, seq); msg != "" {
+				ctx.Violation("", "producer set history "+p5seqText(seq)+": "+msg, r5)
+			}
 		}
 		return
 	}
@@ -1112,6 +1124,9 @@ func run(ctx *xplor.Ctx) {
 				us = append(us, unit{kind: 3, iv: iv, a: n, b: role, cost: math.MaxInt64})
 			}
 		}
+	}
+	for k := 0; k < 16; k++ {
+		us = append(us, unit{kind: 5, iv: 1, a: k, b: 16, cost: math.MaxInt64 - 2})
 	}
 	for _, iv := range ivs1 {
 		for d := -1; d <= 3; d++ {
@@ -1167,6 +1182,8 @@ func run(ctx *xplor.Ctx) {
 			if msg := runP4(ctx, u.iv, u.a); msg != "" {
 				ctx.Violation("", msg, replay{Part: 4, Iv: u.iv, D: u.a})
 			}
+		case 5:
+			runP5(ctx, u.iv, thorough, u.a, u.b)
 		}
 	}
 	if ctx.Shard == 0 {
@@ -1186,6 +1203,7 @@ func main() {
 		Rule: "part 1: for every block interval, every producer count 1..100 and every millisecond of [0, 3 producer rounds] (thorough: 5) and of windows of +-2 slots (thorough: a whole round after 2^31 s, 2^41 ms and the 2023 instant) around 2^31/2^32/2^41/2^42 ms, 2^31 s, 2^32 s, a 2023 instant and the largest int64 nanosecond: slot.NextBpIndex equals the reference owner ceil(ms/interval) mod count, IsFor holds for exactly that member index, for no index outside [0,count) (candidate set incl. 65535 = BpID2Index of a non-member, values congruent to the owner modulo count, uint16 wrap-arounds; all 65536 values at the slot edges), the owner is constant inside a slot and advances by 1 mod count at each boundary; sub-millisecond nanoseconds and slot.Time agree. " +
 			"part 2: real dpos.DPoS with n in {1,3,4} producers (thorough more): for every slot of a round x signer in {owner, every other BP, 2 non-BP keys} x 3 positions in the slot x 2 sub-ms offsets x signed by Block.Sign | by the reference digest: VerifySign, IsBlockValid, VerifyTimestamp and their conjunction equal the reference; then, for the block on the last ms of the slot (thorough: also the first ms), every single-field mutation of the signed header (every bit of every field, every truncation incl. empty, 6 extensions/rewrites, +-1/zero on integers) must be rejected. " +
 			"part 3: the same decision for block times -1..+3 slots from the local clock (thorough: -n-1..n+3) for every residue of the clock's slot number mod n; part 4: IsFuture for every ms of those 5 slots. " +
+			"part 5 (the producer set changes): every sequence of at most 3 producer lists - the genesis list, then lists arriving through Cluster.Update as after an election or reorganisation - over all ordered selections without repetition of 1..3 of 3 identities (thorough: 1..4 of 4) plus two lists an update must refuse (undecodable id first / second; the set must stay what it was); after the last update: size, id->index for every identity and an outsider (65535 = not a member), index->id inside and outside the list, Has, and VerifySign/IsBlockValid of a correctly signed block of every slot of one round by every identity and the outsider (accepted iff the signer is the slot's owner under the current list alone). " +
 			"not judged, only counted (info_* counters): one byte moved across the boundary of two byte fields adjacent in the signed serialisation, and the (r, n-s) twin of the signature. " +
 			"distinct_nontrivial = distinct (interval,count,slot) of part 1 whose every ms passed + distinct decided blocks of parts 2/3 + (interval,offset) grids of part 4.",
 		Assumptions: []string{
@@ -1193,7 +1211,7 @@ func main() {
 			"the local clock does not step backwards while a case runs; a clock-relative verdict is only judged when the clock's slot number read before and after the real calls is the same (otherwise the case is re-run), so no verdict depends on sub-slot timing",
 			"instants before 1970 (negative timestamps) are outside the slot model: only the conjunction (reject) is judged for them",
 			"signature malleability (r, n-s) is not a header mutation and is not in the alphabet",
-			"the producer set is the genesis set of a fresh chain (LIB = 0); re-election of producers is C08/C15 territory",
+			"parts 1-4: the producer set is the genesis set of a fresh chain (LIB = 0); part 5 replaces it through Cluster.Update directly (which list an election produces is C15 territory)",
 		},
 		Shards: func(tier string) int { return 64 },
 		Budget: func(tier string) time.Duration {
